@@ -623,7 +623,8 @@ func (s *Scope) evalCall(e *Expr) *Val {
 		// typeis(x, "pkg.T") : dynamic type of interface value
 		a := argv(0)
 		want := e.Args[1].Name
-		for id, t := range c.W.tagTypes {
+		for _, id := range c.W.tagIDs() {
+			t := c.W.tagType(id)
 			if shortTypeName(t) == want || strings.TrimPrefix(shortTypeName(t), "*") == want {
 				return scalar(Eq(a.Tag, IntLitI(int64(id))), boolT)
 			}
